@@ -99,6 +99,9 @@ func checkConstructors(p *Pool, serviceGo string, res *vh.Result) {
 		return
 	}
 	for _, t := range p.Types {
+		if t.Plain {
+			continue
+		}
 		for _, v := range t.Views {
 			suffix := ""
 			if v.Name != "default" {
